@@ -194,6 +194,7 @@ class Runtime:
         self.externals: Dict[str, Any] = {}       # dotted external name -> abstract value / callable hook
         self.max_steps = 400000
         self.depth = 0
+        self.overrides: Dict[str, Any] = {}       # FuncInfo.qualname -> callable(args, kw) replacing the body
 
     # ---- evaluation ---------------------------------------------------------------------------------------
     def evaluator(self, module: Optional[Module], env: Optional[Dict[str, Any]] = None) -> Evaluator:
@@ -203,6 +204,8 @@ class Runtime:
         return ev
 
     def invoke(self, func: FuncInfo, args: List[Any], kw: Dict[str, Any], parent: Optional[Evaluator]):
+        if func.qualname in self.overrides:
+            return self.overrides[func.qualname](list(args), dict(kw))
         self.depth += 1
         if self.depth > 60:
             self.depth -= 1
@@ -214,6 +217,7 @@ class Runtime:
                 ev.attr_fallback = parent.attr_fallback
                 ev.while_bound = parent.while_bound
             func.node._csa_module = func.module
+            func.node._csa_cls = func.cls
             ret = ev.call_user(func.node, list(args), kw)
             if parent is not None:
                 parent.steps += ev.steps
@@ -222,6 +226,19 @@ class Runtime:
             return ret
         finally:
             self.depth -= 1
+
+    def super_call(self, cls_ctx: ClassInfo, me, name: str, args, kw, parent, node):
+        if not isinstance(me, Instance):
+            raise Unsupported("super() outside an instance method", node)
+        mro = self.proj.mro(me.cls)
+        if cls_ctx not in mro:
+            raise Unsupported("super() context not in the receiver's MRO", node)
+        for c in mro[mro.index(cls_ctx) + 1:]:
+            if name in c.methods:
+                return self.invoke(c.methods[name], [me] + list(args), kw, parent)
+        if name == "__init__":
+            return None           # object / ABC / Exception initialiser
+        raise Unsupported(f"super().{name} not found", node)
 
     def new(self, cls: ClassInfo, args: List[Any], kw: Dict[str, Any], parent: Optional[Evaluator] = None) -> Instance:
         if any(b in ("Exception", "BaseException") or b.endswith("Exception") or b.endswith("Error")
